@@ -31,6 +31,16 @@ CONSTANTS
   FBotch = 2
   FUse = 1
   FailMtls = {FALSE, TRUE}
-  Extra = {"rot", "rrot", "client", "rfail"}
-INVARIANTS TypeOK Undisturbed Fresh ConfigKept CAFollows JudgedAsConfigured Authenticated ClientFollowsRoots Emit
+  ResConn = 3
+  ResReload = 2
+  ResRotate = 1
+  ResUse = 1
+  ResMtls = {FALSE, TRUE}
+  RResConn = 3
+  RResReload = 1
+  RResRotate = 1
+  RResUse = 1
+  RResMtls = {FALSE, TRUE}
+  Extra = {"rot", "rrot", "client", "rfail", "res", "rres"}
+INVARIANTS TypeOK Undisturbed Fresh ConfigKept CAFollows JudgedAsConfigured TicketsOfThisConfiguration Authenticated ClientFollowsRoots Emit
 CHECK_DEADLOCK FALSE
